@@ -2,7 +2,9 @@
    Only statements here; proofs live in Proofs/Pipeline.v and Proofs/PipelineSpec.v.  Gen_C01 is
    regenerated from pyxel/pipelines/{pipeline,processor,model_group,model_function}.py on every run. *)
 From Coq Require Import List String ZArith Bool Arith Sorted Permutation.
-From PyxelV Require Import Model.Pipeline Proofs.Pipeline Proofs.PipelineSpec Proofs.PipelineEq Proofs.PipelineJudge.
+From PyxelV Require Import Model.Pipeline Model.PipelineHist Model.PipelineExec.
+From PyxelV Require Import Proofs.Pipeline Proofs.PipelineSpec Proofs.PipelineEq Proofs.PipelineJudge Proofs.PipelineHist.
+From PyxelV Require Import Proofs.PipelineExec.
 From PyxelGen Require Import Gen_C01.
 Import ListNotations.
 Open Scope list_scope.
@@ -34,12 +36,15 @@ Theorem C01_src_wiring :
 Proof. apply wiring_okb_sound. vm_compute. reflexivity. Qed.
 Print Assumptions C01_src_wiring.
 
-(* run_pipeline iterates model_group_names = MODEL_GROUPS (as does __iter__); a group yields its
-   enabled models only; run loops over the group itself; a model gets (detector, **arguments) *)
+(* run_pipeline iterates model_group_names = MODEL_GROUPS (as does __iter__) and skips a group of the
+   order only when it is absent (no branch on the detector type, the step, the debug flag ...); a
+   group yields its enabled models only; run loops over the group itself (not over a remembered
+   list); a model gets (detector, **arguments) *)
 Theorem C01_src_iteration :
   src_iterated_by = [("Processor.run_pipeline", "model_group_names");
                      ("DetectionPipeline.model_group_names", "MODEL_GROUPS");
                      ("DetectionPipeline.__iter__", "MODEL_GROUPS")]%string /\
+  src_run_pipeline_skips = ["absent"]%string /\
   src_group_iter_guard = "model.enabled"%string /\
   src_group_run_iterates = "self"%string /\
   src_model_call = ["detector"; "**self.arguments"]%string.
@@ -62,16 +67,22 @@ Print Assumptions C01_model_is_trace.
 
 (* what a "no violation" verdict of the correspondence leg means: the recorded calls are literally
    the observable projection (step, name, arguments) of the trace of the theorems below, for an
-   exposure and for every run of a sequential observation (the boolean comparisons decide equality) *)
+   exposure and for every run of an observation (the boolean comparisons decide equality).  The
+   specification accepts two readings of "exactly the arguments configured for it" for a model that
+   changes its container arguments in place: it is handed the configured objects themselves (the
+   code as it is; the trace of p) or a private copy (the trace of `freeze p`); the two coincide for
+   every pipeline without such a model (C01_no_growing_model). *)
 Theorem C01_judgement_sound :
   (forall c p debug t nodes,
      from_yaml (k_doc c) = Ok p -> k_mode c = Exposure debug -> k_observed c = Ran t nodes ->
-     agrees false spec_run c = true ->
-     t = map obs_of (trace debug p (k_steps c))) /\
+     spec_ok c = true ->
+     t = map obs_of (trace debug p (k_steps c)) \/
+     t = map obs_of (trace debug (freeze p) (k_steps c))) /\
   (forall c p runs t nodes,
      from_yaml (k_doc c) = Ok p -> k_mode c = Observation runs -> k_observed c = Ran t nodes ->
-     agrees false spec_run c = true ->
-     t = flat_map (fun os => map obs_of (trace false (apply_overrides p os) (k_steps c))) runs).
+     spec_ok c = true ->
+     t = flat_map (fun os => map obs_of (trace false (apply_overrides p os) (k_steps c))) runs \/
+     t = flat_map (fun os => map obs_of (trace false (freeze (apply_overrides p os)) (k_steps c))) runs).
 Proof. split; [exact judgement_sound_exposure|exact judgement_sound_observation]. Qed.
 Print Assumptions C01_judgement_sound.
 
@@ -118,13 +129,16 @@ Proof. exact empty_list_is_absent. Qed.
 Print Assumptions C01_empty_list_is_absent.
 
 (* every executed call is an enabled position of the configured pipeline and carries exactly the
-   name and the arguments configured for that position *)
+   name and the arguments configured for that position.  (For a model that changes its container
+   arguments in place, "configured" includes its own changes during the earlier steps of this run:
+   ModelFunction.__call__ hands over the stored objects themselves; `recv`.) *)
 Theorem C01_args_exact :
   forall debug p n c,
     In c (trace debug p n) ->
     c_step c < n /\
     exists ms m, get p (c_group c) = Some ms /\ nth_error ms (c_pos c) = Some m /\
-                 enabled m = true /\ c_name c = name m /\ c_args c = args m.
+                 enabled m = true /\ c_name c = name m /\ c_args c = recv (c_step c) m /\
+                 (grows m = false -> c_args c = args m).
 Proof. apply run_args_exact. Qed.
 Print Assumptions C01_args_exact.
 
@@ -154,37 +168,201 @@ Theorem C01_debug_irrelevant :
 Proof. apply run_debug_irrelevant. Qed.
 Print Assumptions C01_debug_irrelevant.
 
-(* Run level (the returned result, not only the calls).  FULL statement: an exposure with debug capture
-   on completes for every pipeline and makes the calls of the run without debug.  The faithful model
-   of the code refutes it: when no model at all executes (no group, or everything disabled) the
-   result assembly reads detector.intermediate, which was never created -> RuntimeError.
-   Known finding C01-debug-empty-run; the witness is replayed on the implementation by the check. *)
-Definition C01_debug_runs_full : Prop :=
-  forall p n, exists r, exposure_result true physical p n = Ok r /\ fst r = trace false p n.
-
-Theorem C01_debug_runs_refuted : ~ C01_debug_runs_full.
+(* THE EXECUTION THEOREM.  Running the pipeline object p itself for n readout steps the way the code
+   does — every call receives the argument objects stored in its ModelFunction at that moment, and a
+   model that changes them in place changes what is stored — makes exactly the calls of `trace`, and
+   leaves the object as `age n p` (which is p itself when no model grows its arguments) *)
+Theorem C01_execution_is_trace :
+  forall p n, exec_readouts physical p n = (trace false p n, age n p).
 Proof.
-  intro H. destruct (H (mk_pipeline (fun _ => None)) 1) as (r & E & _). vm_compute in E. discriminate E.
+  intros p n. rewrite (exec_readouts_closed physical p n) by (vm_compute; reflexivity).
+  unfold trace. rewrite run_readouts_fst. reflexivity.
 Qed.
-Print Assumptions C01_debug_runs_refuted.
+Print Assumptions C01_execution_is_trace.
 
-(* strongest true restriction: as soon as one model executes, the debug run completes, makes exactly
-   the calls of the run without debug and captures each of them; without debug every run completes *)
-Theorem C01_debug_runs_partial :
-  (forall p n, trace false p n <> [] ->
-     exists r, exposure_result true physical p n = Ok r /\
-               fst r = trace false p n /\ snd r = captures_of (trace false p n)) /\
-  (forall p n, exposure_result false physical p n = Ok (run_readouts false physical p n)) /\
-  (forall p n, trace false p n = [] -> exposure_result true physical p n = Raise "RuntimeError").
+(* ---------- configuration histories: what a run is judged against ---------- *)
+
+(* THE RUN THEOREM.  In any history of operations on any store of pipeline objects, the run started
+   by `ORun o m n` after the operations `pre` is a run of exactly the configuration object o has at
+   that time; and every run of a history is of this form.  (Both readings of in-place growth.) *)
+Theorem C01_history_run :
+  (forall inplace st pre o m n post p,
+     nth_error (exec_ops inplace st pre) o = Some p ->
+     hist_runs inplace st (pre ++ ORun o m n :: post) =
+     hist_runs inplace st pre ++
+     {| r_obj := o; r_cfg := p; r_mode := m; r_steps := n |} ::
+     hist_runs inplace (apply_op inplace (exec_ops inplace st pre) (ORun o m n)) post) /\
+  (forall inplace ops st r,
+     In r (hist_runs inplace st ops) ->
+     exists pre post,
+       ops = pre ++ ORun (r_obj r) (r_mode r) (r_steps r) :: post /\
+       nth_error (exec_ops inplace st pre) (r_obj r) = Some (r_cfg r)).
+Proof. split; [exact hist_runs_at|exact hist_runs_inv]. Qed.
+Print Assumptions C01_history_run.
+
+(* hence every run of every history satisfies the property with respect to the configuration AT THAT
+   TIME: sorted in the physical order, every enabled position exactly once per step, never a disabled
+   one, each with the arguments of that configuration *)
+Theorem C01_history_each_run :
+  forall inplace ops st r debug,
+    In r (hist_runs inplace st ops) ->
+    let t := trace debug (r_cfg r) (r_steps r) in
+    StronglySorted (key_lt physical) t /\
+    (forall step g i, count_pos t step g i = if executes (r_cfg r) (r_steps r) step g i then 1 else 0) /\
+    (forall c, In c t ->
+       exists ms m, get (r_cfg r) (c_group c) = Some ms /\ nth_error ms (c_pos c) = Some m /\
+                    enabled m = true /\ c_name c = name m /\ c_args c = recv (c_step c) m).
 Proof.
-  split; [exact (exposure_debug_partial physical)|].
-  split; [exact (exposure_off_runs physical)|exact (exposure_debug_empty physical)].
+  intros inplace ops st r debug _ t. split; [apply C01_sorted|]. split; [apply C01_exactly_once|].
+  intros c Hc. destruct (C01_args_exact debug _ _ c Hc) as (_ & ms & m & A & B & C & D & E & _).
+  exists ms, m. auto.
 Qed.
-Print Assumptions C01_debug_runs_partial.
+Print Assumptions C01_history_each_run.
+
+(* an operation that does not write object o leaves it as it is: whatever happens to OTHER pipeline
+   objects (copies above all) and whatever runs in observation / calibration mode, object o keeps its
+   configuration *)
+Theorem C01_history_frame :
+  forall inplace ops st o,
+    o < List.length st -> (forall x, In x ops -> writes inplace x o = false) ->
+    nth_error (exec_ops inplace st ops) o = nth_error st o.
+Proof. exact exec_ops_frame. Qed.
+Print Assumptions C01_history_frame.
+
+(* a changed switch is honoured by the next run of that object (and by every later one until the
+   object is written again): the run is judged against the configuration with the new flag, so the
+   position executes once per step if it was switched on and never if it was switched off, and every
+   other position executes as before *)
+Theorem C01_history_toggle :
+  forall inplace st pre o g i b mid m n post p ms m0,
+    nth_error (exec_ops inplace st pre) o = Some p ->
+    get p g = Some ms -> nth_error ms i = Some m0 ->
+    (forall x, In x mid -> writes inplace x o = false) ->
+    hist_runs inplace st (pre ++ OSetEnabled o g i b :: mid ++ ORun o m n :: post) =
+      hist_runs inplace st (pre ++ OSetEnabled o g i b :: mid) ++
+      {| r_obj := o; r_cfg := set_enabled g i b p; r_mode := m; r_steps := n |} ::
+      hist_runs inplace
+        (apply_op inplace (exec_ops inplace st (pre ++ OSetEnabled o g i b :: mid)) (ORun o m n)) post /\
+    (forall debug step,
+       count_pos (trace debug (set_enabled g i b p) n) step g i = if Nat.ltb step n && b then 1 else 0) /\
+    (forall debug step g' i', (g' <> g \/ i' <> i) ->
+       count_pos (trace debug (set_enabled g i b p) n) step g' i' = count_pos (trace debug p n) step g' i').
+Proof.
+  intros inplace st pre o g i b mid m n post p ms m0 Hp Hg Hi W.
+  split; [eapply toggle_then_run; eauto|]. split.
+  - intros debug step. rewrite C01_exactly_once, (executes_set_enabled p n step g i b g i ms m0 Hg Hi).
+    rewrite group_eqb_refl, Nat.eqb_refl. reflexivity.
+  - intros debug step g' i' Hne. rewrite !C01_exactly_once.
+    rewrite (executes_set_enabled p n step g i b g' i' ms m0 Hg Hi).
+    destruct (group_eqb g' g) eqn:Eg; [|reflexivity]. apply group_eqb_eq in Eg.
+    destruct (Nat.eqb i' i) eqn:Ei; [|reflexivity]. apply Nat.eqb_eq in Ei.
+    destruct Hne as [H|H]; contradiction.
+Qed.
+Print Assumptions C01_history_toggle.
+
+(* an argument changed through Processor.set (also a key INSIDE a dict / list valued argument) is
+   honoured by the next run of that object: the run is judged against the configuration in which the
+   first model of that name has the new value at that path — read back through the path it is the
+   value that was set, every other argument is as before — while every position keeps its name and
+   its switch (so exactly the same positions execute), and every other group is untouched *)
+Theorem C01_history_setarg :
+  forall inplace st pre o ov mid m n post p ms i m0,
+    nth_error (exec_ops inplace st pre) o = Some p ->
+    (forall y, In y mid -> writes inplace y o = false) ->
+    get p (o_group ov) = Some ms -> first_named (o_model ov) ms = Some i -> nth_error ms i = Some m0 ->
+    let p' := apply_override p ov in
+    let m1 := set_args m0 (upd_kw (o_key ov) (set_in (o_path ov) (o_value ov)) (args m0)) in
+    hist_runs inplace st (pre ++ OSetArg o ov :: mid ++ ORun o m n :: post) =
+      hist_runs inplace st (pre ++ OSetArg o ov :: mid) ++
+      {| r_obj := o; r_cfg := p'; r_mode := m; r_steps := n |} ::
+      hist_runs inplace (apply_op inplace (exec_ops inplace st (pre ++ OSetArg o ov :: mid)) (ORun o m n)) post /\
+    (exists ms', get p' (o_group ov) = Some ms' /\ nth_error ms' i = Some m1) /\
+    (forall g', g' <> o_group ov -> get p' g' = get p g') /\
+    (forall debug step g' i', count_pos (trace debug p' n) step g' i' = count_pos (trace debug p n) step g' i') /\
+    name m1 = name m0 /\ enabled m1 = enabled m0 /\
+    (forall x, kw_lookup (o_key ov) (args m0) = Some x -> get_in (o_path ov) x <> None ->
+       exists y, kw_lookup (o_key ov) (args m1) = Some y /\ get_in (o_path ov) y = Some (o_value ov)) /\
+    (forall k', k' <> o_key ov -> kw_lookup k' (args m1) = kw_lookup k' (args m0)).
+Proof.
+  intros inplace st pre o ov mid m n post p ms i m0 Hp W Hg Hf Hi p' m1.
+  destruct (override_effect p ov ms i m0 Hg Hf Hi) as (A & B & C & D & E & _ & F & G).
+  split; [apply setarg_then_run; assumption|]. split.
+  - eexists. split; [exact A|]. rewrite nth_error_upd_nth_same, Hi. reflexivity.
+  - split; [exact B|]. split.
+    + intros debug step g' i'. rewrite !C01_exactly_once. fold p'. rewrite C. reflexivity.
+    + repeat split; assumption.
+Qed.
+Print Assumptions C01_history_setarg.
+
+(* a copy (deep copy of the pipeline or of its processor, pickle round trip) is a NEW object with the
+   configuration of its source; whatever is then done to one of the two never shows in the other *)
+Theorem C01_history_copy_isolated :
+  forall inplace st o k p ops,
+    nth_error st o = Some p ->
+    let st' := apply_op inplace st (OCopy o k) in
+    nth_error st' (List.length st) = Some p /\
+    ((forall x, In x ops -> writes inplace x o = false) ->
+     nth_error (exec_ops inplace st' ops) o = Some p) /\
+    ((forall x, In x ops -> writes inplace x (List.length st) = false) ->
+     nth_error (exec_ops inplace st' ops) (List.length st) = Some p).
+Proof.
+  intros inplace st o k p ops H st'. split.
+  - apply (copy_appends inplace st o k p H).
+  - apply (copy_isolated inplace st o k p ops H).
+Qed.
+Print Assumptions C01_history_copy_isolated.
+
+(* observation and calibration run copies: they never change any pipeline object; an exposure changes
+   its object only through a model that changes its own arguments in place *)
+Theorem C01_history_runs_leave_configuration :
+  (forall inplace st o m n, (forall d, m <> Exposure d) -> apply_op inplace st (ORun o m n) = st) /\
+  (forall inplace st o d n p,
+     nth_error st o = Some p -> no_grow p -> apply_op inplace st (ORun o (Exposure d) n) = st) /\
+  (forall p, no_grow p -> freeze p = p /\ forall n, age n p = p).
+Proof.
+  split; [exact run_copies_leave_store|]. split; [exact run_exposure_no_grow|].
+  intros p H. split; [apply freeze_no_grow; exact H|intro n; apply age_no_grow; exact H].
+Qed.
+Print Assumptions C01_history_runs_leave_configuration.
+
+(* what a "no violation" verdict on a history means: every run completed, and the calls recorded in
+   each exposure / observation run are literally the projection of the trace of the configuration
+   its object had when the run started *)
+Theorem C01_history_judgement_sound :
+  forall c p,
+    from_yaml (h_doc c) = Ok p -> hspec_ok c = true ->
+    Forall2 (fun r o => run_matches spec_run
+               {| r_obj := 0; r_cfg := r_cfg r; r_mode := r_mode r; r_steps := r_steps r |} o)
+            (hist_runs true [p] (h_ops c)) (h_observed c) \/
+    Forall2 (fun r o => run_matches frozen_run
+               {| r_obj := 0; r_cfg := r_cfg r; r_mode := r_mode r; r_steps := r_steps r |} o)
+            (hist_runs false [p] (h_ops c)) (h_observed c).
+Proof. exact hist_judgement_sound. Qed.
+Print Assumptions C01_history_judgement_sound.
+
+(* Run level (the returned result, not only the calls): an exposure completes for EVERY pipeline with
+   debug capture on or off, makes the calls of the run without debug, and with debug on captures each
+   of them — none when no model at all executes (no group, or everything disabled; the defect
+   C01-debug-empty-run, repaired: the result assembly used to read a tree that did not exist). *)
+Theorem C01_debug_runs :
+  forall p n debug,
+    exposure_result debug physical p n =
+    Ok (trace false p n, if debug then captures_of (trace false p n) else []).
+Proof. intros. apply exposure_runs. Qed.
+Print Assumptions C01_debug_runs.
+
+(* the source side of the two repaired defects: every read of `detector.intermediate` in
+   exposure.run_pipeline is guarded by a test of `_intermediate`, and ModelGroup.__setstate__ restores
+   every attribute that __init__ sets (a pipeline that went through pickle can run: C01-pickled-group-run) *)
+Theorem C01_src_repairs :
+  forallb (String.eqb "guarded") src_intermediate_reads = true /\
+  forallb (fun a => existsb (String.eqb a) src_group_setstate_attrs) src_group_init_attrs = true.
+Proof. split; reflexivity. Qed.
+Print Assumptions C01_src_repairs.
 
 (* ---------- non-vacuity: concrete instances of the hypotheses and of the model ---------- *)
 
-Definition m_ (n : string) (e : bool) (a : kwargs) : mfun := {| name := n; enabled := e; args := a |}.
+Definition m_ (n : string) (e : bool) (a : kwargs) : mfun := {| name := n; enabled := e; grows := false; args := a |}.
 
 Definition ex_a : doc :=
   [("data_processing", Some [m_ "d0" true [("k", VList [VInt 1; VStr "x"])]]);
@@ -220,8 +398,13 @@ Proof.
   simpl. repeat constructor; simpl; intuition discriminate.
 Qed.
 
-Example ex_debug_partial_hyp : trace false ex_p 2 <> [].
-Proof. vm_compute. discriminate. Qed.
+(* the formerly failing input: no group at all, one readout, debug on *)
+Example ex_debug_empty :
+  exposure_result true physical (mk_pipeline (fun _ => None)) 1 = Ok ([], []) /\
+  exists t, exposure_result true physical ex_p 2 = Ok (t, captures_of t) /\ t <> [].
+Proof.
+  split; [reflexivity|]. exists (trace false ex_p 2). split; [apply C01_debug_runs|vm_compute; discriminate].
+Qed.
 
 Example ex_unknown_key : from_yaml [("photon_generation", None)]%string = Raise "TypeError".
 Proof. reflexivity. Qed.
@@ -229,3 +412,72 @@ Proof. reflexivity. Qed.
 Example ex_python_hyp :
   forall g, kw_of_doc ex_doc g <> None -> In g [DataProcessing; ChargeTransfer; Phasing; SignalTransfer].
 Proof. intros g H. destruct g; simpl; try tauto; exfalso; apply H; reflexivity. Qed.
+
+(* a history: run, switch p0 (position 0 of phasing) on and d0 off, run again; then a copy is changed
+   and both objects run: every run is judged against the configuration of its object at that time *)
+Definition ex_hist : list op :=
+  [ORun 0 (Exposure false) 1;
+   OSetEnabled 0 Phasing 0 true; OSetEnabled 0 DataProcessing 0 false;
+   ORun 0 (Exposure true) 1;
+   OCopy 0 CDeep; OSetEnabled 1 Phasing 1 false;
+   ORun 0 (Exposure false) 1; ORun 1 (Exposure false) 1].
+
+Example ex_hist_runs :
+  map (fun r => (r_obj r, map (fun c => (c_group c, c_pos c)) (trace false (r_cfg r) (r_steps r))))
+      (hist_runs true [ex_p] ex_hist) =
+  [(0, [(Phasing, 1); (Phasing, 2); (DataProcessing, 0)]);
+   (0, [(Phasing, 0); (Phasing, 1); (Phasing, 2)]);
+   (0, [(Phasing, 0); (Phasing, 1); (Phasing, 2)]);
+   (1, [(Phasing, 0); (Phasing, 2)])].
+Proof. vm_compute. reflexivity. Qed.
+
+(* a growing model: what it receives at steps 0, 1, 2 of one run, and the object after the run *)
+Definition ex_grow : pipeline :=
+  mk_pipeline (fun g => match g with
+                        | ChargeGeneration =>
+                            Some [{| name := "frames"; enabled := true; grows := true;
+                                     args := [("q", VList [VStr "a"]); ("opt", VDict [VList [VStr "lst"; VList []]])] |}]
+                        | _ => None end)%string.
+
+Example ex_grow_trace :
+  map c_args (trace false ex_grow 3) =
+  [[("q", VList [VStr "a"]); ("opt", VDict [VList [VStr "lst"; VList []]])];
+   [("q", VList [VStr "a"; VInt 1]); ("opt", VDict [VList [VStr "lst"; VList [VInt 0]]])];
+   [("q", VList [VStr "a"; VInt 1; VInt 2]); ("opt", VDict [VList [VStr "lst"; VList [VInt 0; VInt 1]]])]]%string /\
+  age 3 ex_grow <> ex_grow /\ freeze (age 3 ex_grow) <> freeze ex_grow /\
+  snd (exec_readouts physical ex_grow 3) = age 3 ex_grow.
+Proof. split; [vm_compute; reflexivity|]. split; [discriminate|]. split; [discriminate|vm_compute; reflexivity]. Qed.
+
+(* an override addressing inside a dict inside a list inside a dict *)
+Example ex_set_in :
+  set_in [PKey "lst"; PIdx 1; PKey "n"] (VInt 7)
+         (VDict [VList [VStr "level"; VInt 10]; VList [VStr "lst"; VList [VInt 1; VDict [VList [VStr "n"; VInt 2]]]]]) =
+  VDict [VList [VStr "level"; VInt 10]; VList [VStr "lst"; VList [VInt 1; VDict [VList [VStr "n"; VInt 7]]]]]%string.
+Proof. vm_compute. reflexivity. Qed.
+
+Example ex_toggle_hyps :
+  exists ms m0, nth_error (exec_ops true [ex_p] [ORun 0 (Exposure false) 1]) 0 = Some ex_p /\
+                get ex_p Phasing = Some ms /\ nth_error ms 0 = Some m0 /\ enabled m0 = false.
+Proof. eexists. eexists. repeat split; reflexivity. Qed.
+
+(* hypotheses of C01_history_setarg: an existing path inside a dict-valued argument *)
+Definition ex_light : pipeline :=
+  mk_pipeline (fun g => match g with
+                        | PhotonCollection =>
+                            Some [m_ "light" true [("a", VInt 3);
+                                                   ("opt", VDict [VList [VStr "level"; VInt 10];
+                                                                  VList [VStr "lst"; VList [VInt 1; VDict [VList [VStr "n"; VInt 2]]]]])]]
+                        | _ => None end)%string.
+Definition ex_ov : override :=
+  {| o_group := PhotonCollection; o_model := "light"; o_key := "opt";
+     o_path := [PKey "lst"; PIdx 1; PKey "n"]; o_value := VInt 7 |}%string.
+
+Example ex_setarg_hyps :
+  exists ms m0 x, get ex_light PhotonCollection = Some ms /\ first_named "light" ms = Some 0 /\
+                  nth_error ms 0 = Some m0 /\ kw_lookup "opt" (args m0) = Some x /\
+                  get_in (o_path ex_ov) x = Some (VInt 2) /\
+                  map c_args (trace false (apply_override ex_light ex_ov) 1) =
+                  [[("a", VInt 3);
+                    ("opt", VDict [VList [VStr "level"; VInt 10];
+                                   VList [VStr "lst"; VList [VInt 1; VDict [VList [VStr "n"; VInt 7]]]]])]]%string.
+Proof. do 3 eexists. repeat split; vm_compute; reflexivity. Qed.
